@@ -398,12 +398,18 @@ def _stream_classification(repo: Repo, rep: Report) -> None:
     """R5.8: every declared media type of a response passes the streaming classification (the lookup in the table of streaming media
     types): a `continue` / early exit inside the content loop would leave `stream` false for e.g. a schema-less `text/event-stream`."""
     pr = repo.func("core.loader.responses.parser:parse_response")
-    tables = {n.targets[0].id for n in own_nodes(pr.node) if isinstance(n, ast.Assign) and isinstance(n.targets[0], ast.Name) and isinstance(n.value, ast.Dict)
-              and any(const_str(k) == "text/event-stream" for k in n.value.keys if k is not None)}
+    def _is_table(v: Optional[ast.AST]) -> bool:
+        """a dict display - or `dict([...pairs...])` / `dict(<pairs>)` - that has the key "text/event-stream" """
+        if isinstance(v, ast.Dict):
+            return any(const_str(k) == "text/event-stream" for k in v.keys if k is not None)
+        if isinstance(v, ast.Call) and dotted(v.func) == "dict" and v.args:
+            return any(isinstance(t, (ast.Tuple, ast.List)) and t.elts and const_str(t.elts[0]) == "text/event-stream" for t in ast.walk(v.args[0]))
+        return False
+
+    tables = {n.targets[0].id for n in own_nodes(pr.node) if isinstance(n, ast.Assign) and isinstance(n.targets[0], ast.Name) and _is_table(n.value)}
     # the table may be a module-level constant
     for st in pr.module.tree.body:
-        if isinstance(st, (ast.Assign, ast.AnnAssign)) and isinstance(getattr(st, "value", None), ast.Dict) and any(
-                const_str(k) == "text/event-stream" for k in st.value.keys if k is not None):
+        if isinstance(st, (ast.Assign, ast.AnnAssign)) and _is_table(getattr(st, "value", None)):
             tg = st.targets[0] if isinstance(st, ast.Assign) else st.target
             if isinstance(tg, ast.Name):
                 tables.add(tg.id)
@@ -539,8 +545,10 @@ def _json_guard(fn: Function, rep: Report) -> None:
     cfg = CFG(fn.node)
     dom = cfg.dominators()
     FL = Locals(fn.node)
-    mconsts = {t.id: st.value for st in fn.module.tree.body if isinstance(st, ast.Assign) and isinstance(st.value, (ast.Tuple, ast.List, ast.Set, ast.Constant))
+    mconsts = {t.id: st.value for st in fn.module.tree.body if isinstance(st, ast.Assign) and isinstance(st.value, (ast.Tuple, ast.List, ast.Set, ast.Constant, ast.Dict))
                for t in st.targets if isinstance(t, ast.Name)}
+    mconsts.update({st.target.id: st.value for st in fn.module.tree.body if isinstance(st, ast.AnnAssign) and isinstance(st.target, ast.Name)
+                    and isinstance(st.value, (ast.Tuple, ast.List, ast.Set, ast.Constant, ast.Dict))})
 
     def test_text(t: ast.AST) -> str:
         ti = FL.inline(t, stop=tuple(FL.params))
@@ -568,13 +576,28 @@ def _json_guard(fn: Function, rep: Report) -> None:
         rep.error(f"R5.4: no `cast(<type>, response.json())` emit found in {fn.qualname} (anchor)")
         return
     # diverting emits: `return response.text` / `return response.content`, each under a test naming 'str' / 'bytes'
+    def _with_tables(e: ast.AST) -> str:
+        """the expression's text plus the text of every module-level constant table it reads (`TABLE[key]` can be any value of TABLE)"""
+        ei = FL.inline(e, stop=tuple(FL.params))
+        txt = norm(e) + " " + norm(ei)
+        for nm in names_in(ei):
+            if nm in mconsts:
+                txt += " " + norm(mconsts[nm])
+        return txt
+
     def emit_nodes(snippet: str):
+        """statements where the raw-body expression enters the emitted text: a write_line, or the assignment of the local it is written from"""
         out = []
         for n in cfg.nodes:
             if n.kind == "stmt" and n.ast is not None and not n.copy:
+                hit = False
                 for cc in calls_in(n.ast):
-                    if isinstance(cc.func, ast.Attribute) and cc.func.attr == "write_line" and cc.args and (snippet in norm(cc.args[0]) or snippet in norm(FL.inline(cc.args[0], stop=tuple(FL.params)))):
-                        out.append(n)
+                    if isinstance(cc.func, ast.Attribute) and cc.func.attr == "write_line" and cc.args and snippet in _with_tables(cc.args[0]):
+                        hit = True
+                if isinstance(n.ast, ast.Assign) and not isinstance(n.ast.value, ast.Call) and snippet in _with_tables(n.ast.value):
+                    hit = True
+                if hit:
+                    out.append(n)
         return out
 
     def test_text_of(n) -> str:
